@@ -89,6 +89,17 @@ class Opt:
         return "Some(%r)" % (self.fields[0],) if self.some else "None"
 
 
+class EnumVal:
+    """fieldless enum value such as std::cmp::Ordering (disc is the value `discriminant()` / switchInt sees)"""
+
+    def __init__(self, name, variant, disc):
+        self.name, self.variant, self.disc = name, variant, disc
+        self.fields = []
+
+    def __repr__(self):
+        return "%s::%s" % (self.name, self.variant)
+
+
 class Unit:
     def __repr__(self):
         return "()"
@@ -300,6 +311,15 @@ class EnumerateIter(IterBase):
     def __init__(self, inner):
         self.inner, self.i = inner, 0
 
+    def next_back(self, it):
+        if not isinstance(self.inner, SliceIter):
+            raise Unsupported("Enumerate::next_back over a non-slice iterator")
+        remaining = self.inner.hi - self.inner.lo
+        x = self.inner.next_back(it)
+        if x is None:
+            return None
+        return Tuple([self.i + remaining - 1, x])
+
     def next(self, it):
         x = self.inner.next(it)
         if x is None:
@@ -317,7 +337,7 @@ class EnumerateIter(IterBase):
 def into_iter(v):
     if isinstance(v, IterBase):
         return v
-    if isinstance(v, VecV):
+    if isinstance(v, (VecV, Array)):
         return VecIntoIter(v.fields)
     if isinstance(v, (SliceRef,)):
         return SliceIter(v)
@@ -543,7 +563,17 @@ class Interp:
         self.stub_preds = []
 
     # ---------------------------------------------------------------- exploration
-    def explore(self, fn, make_args, max_paths=None):
+    def explore_body(self, body, max_paths=None, feasible=None):
+        """body: callable(interp) -> result, re-executed once per decision trace (may call several functions in sequence
+        on shared state, e.g. `new` followed by several `evaluate`s).  feasible: optional callable(list of z3 bools) ->
+        bool used to prune branches whose path condition is unsatisfiable (a solver call per symbolic decision)."""
+        self.feasible = feasible
+        try:
+            return self.explore(None, None, max_paths=max_paths, body=body)
+        finally:
+            self.feasible = None
+
+    def explore(self, fn, make_args, max_paths=None, body=None):
         """fn: Function; make_args: callable(dom) -> list of argument values (fresh per run).
         Returns list of Path."""
         paths = []
@@ -558,9 +588,12 @@ class Interp:
             self.prescribed = list(prescribed)
             self.pending = []
             self.steps = 0
-            args = make_args(self.dom)
             try:
-                self.path.result = self.call_function(fn, args)
+                if body is not None:
+                    self.path.result = body(self)
+                else:
+                    args = make_args(self.dom)
+                    self.path.result = self.call_function(fn, args)
             except Panic as e:
                 self.path.panic = e.msg
             self.path.side = list(self.dom.side)
@@ -584,8 +617,20 @@ class Interp:
         if k < len(self.prescribed):
             d = self.prescribed[k]
         else:
-            d = True
-            self.pending.append(self.path.decisions + [False])
+            feas = getattr(self, "feasible", None)
+            if feas is not None:
+                can_t = feas(self.path.conds + [cond])
+                can_f = feas(self.path.conds + [z3.Not(cond)])
+                if can_t and can_f:
+                    d = True
+                    self.pending.append(self.path.decisions + [False])
+                elif can_t or not can_f:
+                    d = True   # (if neither is feasible the whole path is dead; follow True, obligations are vacuous)
+                else:
+                    d = False
+            else:
+                d = True
+                self.pending.append(self.path.decisions + [False])
         self.path.decisions.append(d)
         self.path.conds.append(cond if d else z3.Not(cond))
         return d
@@ -656,6 +701,10 @@ class Interp:
         if isinstance(v, int):
             if v in term.cases:
                 return term.cases[v]
+            if v < 0:
+                for width in (8, 16, 32, 64):
+                    if (v + (1 << width)) in term.cases:
+                        return term.cases[v + (1 << width)]
             return term.otherwise
         if z3.is_bool(v):
             # boolean switch: cases {0: bbF}, otherwise bbT
@@ -751,8 +800,16 @@ class Interp:
     def eval_operand(self, f, frame, op):
         if isinstance(op, mp.Copy):
             v = self.read_place(f, frame, op.place)
+            if op.move and isinstance(v, IterBase):
+                return v  # a moved iterator keeps its identity (harness-side counters observe it); the source is dead
             return clone_value(v)
         if isinstance(op, mp.Const):
+            if re.search(r"::promoted\[\d+\]$", op.text):
+                k = re.search(r"(promoted\[\d+\])$", op.text).group(1)
+                cands = self.p.by_name.get(f.name + "::" + k, [])
+                if len(cands) == 1:
+                    return self.call_function(cands[0], [])
+                raise Unsupported("promoted constant %s of %s" % (k, f.name))
             return self.eval_const(op.text)
         raise Unsupported("operand %r" % (op,))
 
@@ -819,8 +876,11 @@ class Interp:
             if rv.kind == "closure":
                 return Struct(rv.name, ops)
             if rv.kind in ("struct", "tstruct", "unit"):
-                base = strip_path(rv.name)
                 full = rv.name
+                try:
+                    base = strip_generics(full).rstrip(":").split("::")[-1]
+                except Exception:
+                    base = strip_path(full)
                 if "Option" in full and full.rstrip().endswith("None"):
                     return Opt(None, False)
                 if "Option" in full and base == "Some":
@@ -850,6 +910,8 @@ class Interp:
             v = self.read_place(f, frame, rv.place)
             if isinstance(v, Opt):
                 return 1 if v.some else 0
+            if isinstance(v, EnumVal):
+                return v.disc
             raise Unsupported("discriminant of %r" % (v,))
         if isinstance(rv, mp.Repeat):
             v = self.eval_operand(f, frame, rv.op)
